@@ -44,6 +44,7 @@ func main() {
 	tier := fs.String("tier", os.Getenv("VERIF_TIER"), "quick|thorough")
 	workers := fs.Int("workers", 0, "worker processes (default: number of CPUs)")
 	batches := fs.String("batches", "", "comma separated batch numbers (worker mode)")
+	total := fs.Int("total", 0, "total number of batches (worker mode)")
 	replay := fs.String("replay", "", "replay file")
 	fs.Parse(os.Args[3:])
 	if *tier == "" {
@@ -59,7 +60,7 @@ func main() {
 	switch mode {
 	case "worker":
 		rep := ev.NewReport(id, *tier, int64(seed()), chk.level)
-		job := &core.Job{Prop: id, Tier: *tier, Seed: seed(), Rep: rep}
+		job := &core.Job{Prop: id, Tier: *tier, Seed: seed(), Rep: rep, Total: *total}
 		for _, s := range strings.Split(*batches, ",") {
 			if s == "" {
 				continue
@@ -70,7 +71,7 @@ func main() {
 			}
 			job.Batches = append(job.Batches, n)
 		}
-		chk.fn(job)
+		runParts(chk, job)
 		os.Stdout.Write(core.Encode(rep))
 	case "replay":
 		if *replay == "" && fs.NArg() > 0 {
@@ -92,9 +93,9 @@ func runCheck(id string, chk check, tier string, workers int) int {
 	rep.Rule = chk.rule
 	rep.Assumptions = chk.assumptions
 	rep.Components = chk.components
-	nb := chk.quick
-	if tier == "thorough" {
-		nb = chk.thorough
+	nb := 0
+	for _, p := range chk.parts {
+		nb += p.n(tier)
 	}
 	if workers <= 0 {
 		workers = runtime.NumCPU()
@@ -121,7 +122,7 @@ func runCheck(id string, chk check, tier string, workers int) int {
 			defer wg.Done()
 			ctx, cancel := context.WithTimeout(context.Background(), workerTimeout(tier))
 			defer cancel()
-			cmd := exec.CommandContext(ctx, os.Args[0], "worker", id, "--tier", tier, "--batches", strings.Join(lists[w], ","))
+			cmd := exec.CommandContext(ctx, os.Args[0], "worker", id, "--tier", tier, "--batches", strings.Join(lists[w], ","), "--total", strconv.Itoa(nb))
 			cmd.Stderr = &stderrs[w]
 			cmd.Env = os.Environ()
 			outs[w], errs[w] = cmd.Output()
@@ -152,4 +153,23 @@ func workerTimeout(tier string) time.Duration {
 		return 90 * time.Minute
 	}
 	return 15 * time.Minute
+}
+
+// runParts dispatches the worker's global batch numbers to the parts of the check; each
+// part sees its own local batch numbering.
+func runParts(chk check, job *core.Job) {
+	off := 0
+	for _, p := range chk.parts {
+		n := p.n(job.Tier)
+		sub := &core.Job{Prop: job.Prop, Tier: job.Tier, Seed: job.Seed, Rep: job.Rep, Total: n}
+		for _, b := range job.Batches {
+			if b >= off && b < off+n {
+				sub.Batches = append(sub.Batches, b-off)
+			}
+		}
+		if len(sub.Batches) > 0 {
+			p.fn(sub)
+		}
+		off += n
+	}
 }
